@@ -456,6 +456,16 @@ def run_meta(st: Stats, case):
             if mv.lower() not in sval.lower():
                 ok = False
                 st.violation("metadata-not-set", stratum, dict(feats, on=ent.name), inp, sval, mv)
+            elif mk == "summary":
+                # the summary given as metadata is what list pages show: converted like any documentation text, its words kept
+                try:
+                    ent.markdown(md())
+                    shown = " ".join(re.sub(r"<[^>]*>", " ", str(ent.meta.summary)).replace("Read more&hellip;", " ").split())
+                except Exception as e:  # noqa
+                    shown = f"<{type(e).__name__}: {e}>"
+                if shown != mv:
+                    ok = False
+                    st.violation("metadata-not-set", stratum, dict(feats, on=ent.name, rendered=True), inp, shown[:80], mv)
     st.stratum(stratum, 0 if ok else 1)
 
 
